@@ -238,7 +238,7 @@ Section Frame.
     Proof.
       unfold inflate. destruct (k_ztape (emit _ c)) as [|r rs]; cbn [fst].
       - apply fr_emit; apply ok_inflate.
-      - destruct r; [destruct (d_reset d)|]; cbn [fst];
+      - destruct r as [[out ended]|]; [destruct ended; destruct (d_reset d)|]; cbn [fst];
           repeat (first [apply fr_emit; apply ok_inflate | apply P_ztape | apply P_zin | tr; [|apply P_zin] | tr; [|apply P_ztape]]).
     Qed.
 
